@@ -71,6 +71,16 @@ def project (ps : List Path) : JTree → JTree
   | .obj kvs => .obj (projectKVs ps kvs)
   | t => t
 
+/-- does `path` lead, through objects only, to a value that exists? (what "the path exists" means in the
+    property; a path that stops at a scalar or an array, or names a missing key, does not resolve) -/
+def resolves : JTree → Path → Bool
+  | _, [] => true
+  | .obj kvs, k :: r =>
+    match lookup k kvs with
+    | some v => resolves v r
+    | none => false
+  | _, _ :: _ => false
+
 /-! ## unique keys, key-order-insensitive equality -/
 
 def hasKey (k : Bytes) : KVs → Bool
@@ -127,6 +137,8 @@ end
 /-- `t ≈ u` -/
 def Eqv (t u : JTree) : Prop := eqvb t u = true
 
+instance (t u : JTree) : Decidable (Eqv t u) := inferInstanceAs (Decidable (eqvb t u = true))
+
 /-! ## order-preserving variant of the library semantics (classification of failures) -/
 
 def eraseKey (k : Bytes) : KVs → KVs
@@ -167,6 +179,13 @@ def crossArr : JTree → Path → Bool
   | _, _ :: _ => false
 
 def noCross (ps : List Path) (t : JTree) : Bool := ps.all (fun p => !crossArr t p)
+
+/-- field-name lists for which `BuildFieldSelector` is invertible: no empty name, and no name that is followed
+    by the separator ends in a backslash (the separator would read as an escaped dot) -/
+def validNames : List Bytes → Bool
+  | [] => true
+  | [f] => !f.isEmpty
+  | f :: g :: r => !f.isEmpty && f.getLast? != some BSL && validNames (g :: r)
 
 /-! ## the property oracle -/
 
